@@ -40,10 +40,15 @@ func CopyHeaders(proxyReq, originalReq *http.Request) {
 	if proxyReq.Header == nil {
 		proxyReq.Header = make(http.Header, len(originalReq.Header))
 	}
+	// headers named in the client's Connection header are hop-by-hop too (RFC 7230 section 6.1)
+	nominated := connectionNominatedHeaders(originalReq.Header)
 	for header, values := range originalReq.Header {
 		// Skip hop-by-hop headers as per RFC 2616 section 13.5.1
 		// these headers are connection-specific and shouldn't be forwarded
 		if isHopByHopHeader(header) {
+			continue
+		}
+		if len(nominated) > 0 && slices.ContainsFunc(nominated, func(h string) bool { return strings.EqualFold(h, header) }) {
 			continue
 		}
 
@@ -131,6 +136,25 @@ func hasHeaderValue(h http.Header, name string) bool {
 		}
 	}
 	return false
+}
+
+// connectionNominatedHeaders returns the header names the Connection header declares
+// hop-by-hop for this connection (every line, whatever the spelling of the key)
+func connectionNominatedHeaders(h http.Header) []string {
+	var names []string
+	for key, values := range h {
+		if !strings.EqualFold(key, constants.HeaderConnection) {
+			continue
+		}
+		for _, v := range values {
+			for _, token := range strings.Split(v, ",") {
+				if token = strings.TrimSpace(token); token != "" {
+					names = append(names, token)
+				}
+			}
+		}
+	}
+	return names
 }
 
 var hopByHopHeaders = []string{
